@@ -2,7 +2,7 @@
    Model: Witness/Model.v process_sign_subtree (transcription of processSignSubtreeRequest);
    closed instances over the free hash algebra ih. Signatures are symbolic: In (mkSig k SValid) sigs
    = "the presented note carries a signature that verifies over its text under key k". *)
-From SL Require Import Witness.Model Witness.Proofs Witness.Inv Witness.Theorems Witness.Ideal Merkle.Sound.
+From SL Require Import Witness.Model Witness.Proofs Witness.Inv Witness.Theorems Witness.Ideal Witness.Reverify Merkle.Sound.
 Open Scope N_scope.
 
 (* an answer with signatures: the note parses as a checkpoint (no extension lines) of a known origin,
@@ -41,6 +41,13 @@ Theorem C16_none : forall c m s e sh p (n : note ih),
      exists err, isign_subtree c m (SBody s e sh p n) = inl err).
 Proof. exact ideal_subtree_none. Qed.
 Print Assumptions C16_none.
+
+(* the per-signer re-verification before signing never fails once the note opened: the refusal
+   "internal error: failed to re-verify signature" is unreachable (and is never seen by the harness) *)
+Theorem C16_reverify_never_fails : forall c m (b : sub_body ih),
+  isign_subtree c m b <> inl (EInternal IReverify).
+Proof. exact (reverify_dead ih INode ih_eqb). Qed.
+Print Assumptions C16_reverify_never_fails.
 
 (* ---- non-vacuity ---- *)
 Definition ex_meta : meta := [(ex_o, [48])].
